@@ -118,6 +118,8 @@ def classify(p, m):
         labels.append('resume_moves_pending_wakeup')
     if getattr(m, 'tempo_with_sleepers', 0):
         labels.append('tempo_change_with_sleepers')
+    if getattr(m, 'jumped', 0):
+        labels.append('beats_jump_over_sleeper')
     drawers = [r for r, b in p['routines'].items()
                if r in p.get('seeded', {}) and any(
                    op[0] == 'rand' for op in b['body'])]
@@ -135,7 +137,15 @@ class CountingModel(prog_model.Model):
             self.moved += 1
         super().sched(clock, key, rname)
 
+    jumped = 0
+
     def do(self, who, op, now):
+        if op[0] == 'beats_add' and op[2] > 0:
+            c = self.clocks[op[1]]
+            b = c.secs2beats(now)
+            if any(e['clock'] == op[1] and e['r'] != who
+                   and b < e['key'] <= b + F(op[2]) for e in self.queue):
+                self.jumped += 1
         if op[0] == 'tempo' and any(e['clock'] == op[1] and e['r'] != who
                                     for e in self.queue):
             self.tempo_with_sleepers += 1
